@@ -1,4 +1,4 @@
-import AmaranthVerif.Proofs.EngineEquivSafe
+import AmaranthVerif.Proofs.EngineAppended2
 
 /-!
 # Concrete simulations used as non-vacuity instances by `Properties/C08.lean`
@@ -94,5 +94,17 @@ def replSyncPost : List ProcKind :=
 def replSyncScripts : List (List TbOp) :=
   [[.tick 0 [.sig 2, .sig 3], .get (.sig 2), .set (.sig 1) 1, .tick 0 [.sig 2], .get (.sig 2), .set (.sig 1) 0,
     .tick 0 [], .get (.sig 3)]]
+
+/-! ### the compiled process removed, the user process appended -/
+
+/-- `out := in ^ 3` first, then the clock process: after the replacement the process list is `[clock, userComb]` -/
+def replCombPost : List ProcKind := [.clock 2 2 4]
+
+/-- the register `count := count + 1` of `arstD` (asynchronous reset): the compiler's `[arst, sync]` pair, followed
+by the compiled `out := count ^ 3` -/
+def replAsyncE : Expr := .op2 .add (.sig 2) (.const 1 (Shape.u 1))
+def replAsyncPost : List ProcKind := [.comb (.assign (.sig 3) (.op2 .xor (.sig 2) (.const 3 (Shape.u 4))))]
+/-- the process list after the replacement: `[comb, userSync]` -/
+def replAsyncB : List ProcKind := [] ++ replAsyncPost ++ [ProcKind.userSync 0 (exprSigs replAsyncE) 2 replAsyncE]
 
 end Amaranth.Engine.Ex
